@@ -1,5 +1,6 @@
 import Rbp.Proofs.Templates
 import Rbp.Proofs.ScriptMachineBtc
+import Rbp.Proofs.OpReturn
 /-!
 # The Bitcoin/testnet3 cascade is a set of pairwise exclusive templates (C05)
 
@@ -528,4 +529,79 @@ theorem pattern_iff (testnet : Bool) (s : Bytes) :
               · have hc : cascade s = .notRecognised := by simp [cascade, h1, h2, hk, c1, c2, hw, c7]
                 rw [hc]
                 simp [h1, h2, hk, c1, c2, hw, c7]
+
+/-! ### bare m-of-n multisig: the canonical template is typed multisig -/
+
+theorem keys_pushes (ps : List Bytes) (tail : List (Option Ins)) (a : Nat) :
+    isMultisigLib.keys (ps.map (fun d => some (Ins.push d)) ++ tail) a = isMultisigLib.keys tail (a + ps.length) := by
+  induction ps generalizing a with
+  | nil => simp
+  | cons d ps ih =>
+    simp only [List.map_cons, List.cons_append, isMultisigLib.keys, List.length_cons]
+    rw [ih]; congr 1; omega
+
+/-- `OP_m <key>{n} OP_n OP_CHECKMULTISIG` with 1 ≤ m ≤ n ≤ 16 — every key any well-formed push, of any length and in any
+    push form — is typed bare multisig -/
+theorem bare_multisig_template (m n : Nat) (keys : List (T.Form × Bytes)) (hm : 1 ≤ m) (hmn : m ≤ n) (hn : n ≤ 16)
+    (hk : keys.length = n) (hwf : ∀ p ∈ keys, (T.Tok.push p.1 p.2).WF) :
+    isBareMultisig ([UInt8.ofNat (0x50 + m)] ++ keys.flatMap (fun p => (T.Tok.push p.1 p.2).enc) ++
+      [UInt8.ofNat (0x50 + n), 0xae]) = true := by
+  let toks : List T.Tok := [T.Tok.op (UInt8.ofNat (0x50 + m))] ++ keys.map (fun p => T.Tok.push p.1 p.2) ++
+    [T.Tok.op (UInt8.ofNat (0x50 + n)), T.Tok.op 0xae]
+  have em : (UInt8.ofNat (0x50 + m)).toNat = 0x50 + m := by simp; omega
+  have en : (UInt8.ofNat (0x50 + n)).toNat = 0x50 + n := by simp; omega
+  have hs : [UInt8.ofNat (0x50 + m)] ++ keys.flatMap (fun p => (T.Tok.push p.1 p.2).enc) ++ [UInt8.ofNat (0x50 + n), 0xae] =
+      toks.flatMap T.Tok.enc := by
+    simp [toks, List.flatMap_append, List.flatMap_map, T.Tok.enc]
+  have hwft : ∀ t ∈ toks, t.WF := by
+    intro t ht
+    simp only [toks, List.mem_append, List.mem_cons, List.mem_map, List.not_mem_nil, or_false] at ht
+    rcases ht with (rfl | ⟨p, hp, rfl⟩) | rfl | rfl
+    · simp only [T.Tok.WF]; right; omega
+    · exact hwf p hp
+    · simp only [T.Tok.WF]; right; omega
+    · simp only [T.Tok.WF]; right; decide
+  have hi := SM.instrs_enc toks hwft
+  have nzm : ¬ UInt8.ofNat (0x50 + m) = 0 := by intro e; have := congrArg UInt8.toNat e; rw [em] at this; simp at this
+  have nzn : ¬ UInt8.ofNat (0x50 + n) = 0 := by intro e; have := congrArg UInt8.toNat e; rw [en] at this; simp at this
+  have hi' : instrs (toks.flatMap T.Tok.enc) =
+      some (Ins.op (UInt8.ofNat (0x50 + m))) :: ((keys.map (·.2)).map (fun d => some (Ins.push d)) ++
+        [some (Ins.op (UInt8.ofNat (0x50 + n))), some (Ins.op 0xae)]) := by
+    rw [hi]
+    have nzae : ¬ (0xae : UInt8) = 0 := by decide
+    simp only [toks, List.map_append, List.map_cons, List.map_nil, List.map_map, SM.toIns, nzm, nzn, nzae, if_false,
+      Function.comp_def, List.singleton_append, List.cons_append, List.nil_append]
+  rw [hs]
+  unfold isBareMultisig
+  have hpm : pushnum (UInt8.ofNat (0x50 + m)) = some m := by unfold pushnum; rw [em]; simp; omega
+  have hpn : pushnum (UInt8.ofNat (0x50 + n)) = some n := by unfold pushnum; rw [en]; simp; omega
+  have hlib : isMultisigLib (toks.flatMap T.Tok.enc) = true := by
+    unfold isMultisigLib
+    rw [hi']
+    simp only [hpm]
+    rw [keys_pushes]
+    simp only [isMultisigLib.keys, hpn, List.length_map, hk, Nat.zero_add, ne_eq, not_true_eq_false, if_false]
+    have : ¬ m > n := by omega
+    simp [this]
+  have hcount : ((instrs (toks.flatMap T.Tok.enc)).take 20).length ≤ 19 := by
+    rw [hi']; simp [hk]; omega
+  have hbyte : (get (toks.flatMap T.Tok.enc) ((toks.flatMap T.Tok.enc).length - 2)) = UInt8.ofNat (0x50 + n) := by
+    rw [← hs]
+    simp only [get, List.getD]
+    have : ([UInt8.ofNat (0x50 + m)] ++ keys.flatMap (fun p => (T.Tok.push p.1 p.2).enc) ++ [UInt8.ofNat (0x50 + n), 0xae]).length - 2 =
+        ([UInt8.ofNat (0x50 + m)] ++ keys.flatMap (fun p => (T.Tok.push p.1 p.2).enc)).length := by simp
+    rw [this, List.getElem?_append_right (Nat.le_refl _)]
+    simp
+  simp only [hlib, hbyte, en, Bool.and_true, Bool.and_eq_true, decide_eq_true_eq]
+  exact ⟨hcount, by omega, by omega⟩
+
+/-- what a script typed bare multisig must look like at its two ends: first byte OP_1..OP_16, last byte OP_CHECKMULTISIG
+    preceded by OP_1..OP_16, at most 19 instructions -/
+theorem bare_multisig_ends (s : Bytes) (h : isBareMultisig s = true) :
+    (∃ m rest, s = m :: rest ∧ 0x51 ≤ m.toNat ∧ m.toNat ≤ 0x60) ∧ 3 ≤ s.length ∧
+    0x51 ≤ (get s (s.length - 2)).toNat ∧ (get s (s.length - 2)).toNat ≤ 0x60 ∧ ((instrs s).take 20).length ≤ 19 := by
+  unfold isBareMultisig at h
+  simp only [Bool.and_eq_true, decide_eq_true_eq] at h
+  obtain ⟨⟨h1, h2⟩, h3, h4⟩ := h
+  exact ⟨multisig_first s h2, multisig_len s h2, h3, h4, h1⟩
 end S
